@@ -243,7 +243,13 @@ impl<'a> Dec<'a> {
                 8 => Action::InsertQualifier(self.key(), String::new()),
                 9 => Action::InsertChecksum(self.pick(&["checksum", "Checksum", "CHECKSUM"][..]).to_string(), self.pick(CK_TEXTS).to_string()),
                 10 => Action::RemoveQualifier(self.key()),
-                _ => Action::ClearQualifiers,
+                _ => {
+                    if self.ch.flag() {
+                        Action::ClearQualifiers
+                    } else {
+                        Action::IndexSet(self.pick(&["checksum", "Checksum", "a", "k"][..]).to_string(), self.pick(CK_TEXTS).to_string())
+                    }
+                },
             })
             .collect();
         ShapeSpec { conv_fail, hook }
